@@ -4413,6 +4413,8 @@ def bundle_recovery(P, R, L):
     R.once(c02.grd1_replay, P, R, L)
     agr2_codec_pairs(P, R, L, groups=("batch", "log", "manifest"))
     R.once(grd33_decoder_reports_consumed_bytes, P, R, L)
+    R.once(grd34_batch_loop_bounded_by_count, P, R, L)
+    R.once(fs2_disk_operations_are_their_namesakes, P, R, L)
     R.once(agr3_minimum_length_guards, P, R, L)
     R.once(grd26_reused_flag_truthful, P, R, L)
     R.once(grd28_last_wal_flag, P, R, L)
@@ -4450,6 +4452,7 @@ def bundle_no_assertion_trips(P, R, L):
     R.once(grd16_trivial_move, P, R, L)
     R.once(role5_version_builder, P, R, L)
     R.once(own13_edit_lists, P, R, L)
+    R.once(grd35_picked_compaction_has_an_input, P, R, L)
     R.once(grd14_manual_inputs, P, R, L, parts=("nonempty",))
     R.once(pair10_builder_slot, P, R, L)
     R.once(ord17_manual_slot, P, R, L)
@@ -6350,3 +6353,105 @@ def agr3_minimum_length_guards(P, R, L, rule="AGR-3"):
         R.check(rule, dec + "|no-guard-above-the-encoder-minimum", not bad, where(d),
                 "%s: the decoder rejects for length only below the encoder's minimum output (%d bytes)" % (what, mn), "; ".join(bad) or "ok")
     R.floor(rule, "encoder/decoder pairs with a computed minimum", n, 3)
+
+
+# ------------------------------------------------------------------------------------------- FS-2 a disk file-system operation does what its name says
+FS_MUTATORS = ("create_dir", "create_dir_all", "remove_dir", "remove_dir_all", "remove_file", "rename")
+
+
+def fs2_disk_operations_are_their_namesakes(P, R, L, rule="FS-2"):
+    """fs_disk: each directory / file mutation of the FileSystem trait is implemented by the std::fs function of the same name and by
+    no other mutation (destroy_database ends with remove_dir, which refuses a directory that a racing open has just
+    re-populated; remove_dir_all there would wipe a live database; rename is the atomic switch of CURRENT)."""
+    n = 0
+    for p, b in sorted(P.bodies.items()):
+        if not (p.startswith("<fs::fs_disk::") and " as fs::traits::FileSystem>::" in p) or b.kind == "closure":
+            continue
+        meth = p.rsplit("::", 1)[1]
+        if meth not in FS_MUTATORS:
+            continue
+        R.analysed(b)
+        n += 1
+        seen, todo, used = set(), [b], set()
+        while todo:
+            x = todo.pop()
+            if x.path in seen:
+                continue
+            seen.add(x.path)
+            for c in x.calls():
+                if x.is_cleanup(c.bb):
+                    continue
+                nm = c.name or ""
+                if nm.startswith("std::fs::") and nm.rsplit("::", 1)[1] in FS_MUTATORS and nm.count("::") == 2:
+                    used.add(nm.rsplit("::", 1)[1])
+                h = P.bodies.get(c.t.get("resolved") or "")
+                if h is not None and c.t.get("local") and not c.t.get("dyn") and len(seen) < 6:
+                    todo.append(h)
+        R.check(rule, p + "|namesake", used == {meth}, where(b), "%s is std::fs::%s and no other directory / file mutation" % (meth, meth), "uses %s" % sorted(used))
+    R.floor(rule, "mutating methods of the disk file systems", n, 12)
+
+
+# ------------------------------------------------------------------------------------------- GRD-34 the batch decoder reads exactly the stored number of operations
+def grd34_batch_loop_bounded_by_count(P, R, L, rule="GRD-34"):
+    """Batch::try_from decodes `count` elements, count being the varint stored in the header: the element loop is driven by the
+    range 0..count.  A loop that runs until the payload is used up turns a truncated batch (one fragment of a multi-block
+    record taken for the whole record) into a shorter, well-formed batch."""
+    fn = "<batch::Batch as std::convert::TryFrom<&[u8]>>::try_from"
+    b = P.body(fn)
+    if b is None:
+        return R.missing_anchor(rule, fn)
+    R.analysed(b)
+    rd = [c for c in b.calls() if not b.is_cleanup(c.bb) and c.name == "batch::BatchElement::read_element"]
+    ranges = []
+    for bb in range(b.n):
+        for st in b.blocks[bb]["stmts"]:
+            rv = st["rv"] if st["k"] == "assign" else None
+            if rv and rv["k"] == "aggregate" and (rv.get("adt") or "").endswith("ops::Range") and len(rv["ops"]) == 2:
+                if any(o.kind == "call" and "read_varint" in o.name for o in origins(b, rv["ops"][1])) and \
+                        any(o.kind == "const" and str(o.name) == "0" for o in origins(b, rv["ops"][0])):
+                    ranges.append(st["pl"]["l"])
+    def over_range(op, d=3):
+        for o in origins(b, op):
+            if o.kind == "agg" and "Range" in (o.name or "") and o.extra and o.extra[1]["pl"]["l"] in ranges:
+                return True
+            if o.kind == "call" and o.name.endswith("::into_iter") and o.site is not None and o.site.args and d > 0 and over_range(o.site.args[0], d - 1):
+                return True
+        return False
+    nexts = [c for c in b.calls() if not b.is_cleanup(c.bb) and (c.name or "").endswith("::next") and c.args and over_range(c.args[0])]
+    ok = bool(rd) and bool(ranges) and bool(nexts) and all(in_cycle(b, c.bb) for c in rd) and \
+        all(b.must_pass(c.bb, through_nodes=[x.bb for x in nexts]) for c in rd)
+    R.check(rule, fn + "|element-loop-driven-by-the-stored-count", ok, where(b),
+            "read_element runs inside the loop over 0..count (count = the varint of the batch header)",
+            "read_element sites %d, ranges ending in the count %d, next() on a range %d" % (len(rd), len(ranges), len(nexts)))
+
+
+# ------------------------------------------------------------------------------------------- GRD-35 a picked compaction always has an input
+def grd35_picked_compaction_has_an_input(P, R, L, rule="GRD-35"):
+    """VersionSet::pick_compaction: once a CompactionManifest was created for a level, an input file is pushed into it before the
+    inputs are finalized - the size-triggered branch wraps around to the first file of the level when no file lies beyond
+    the compaction pointer.  An empty input set panics the compaction thread (scheduled flag stays set: everything that
+    waits for background work hangs)."""
+    fn = "versioning::version_set::VersionSet::pick_compaction"
+    b = P.body(fn)
+    if b is None:
+        return R.missing_anchor(rule, fn)
+    R.analysed(b)
+    news = [c for c in b.calls() if not b.is_cleanup(c.bb) and c.name == "compaction::manifest::CompactionManifest::new"]
+    fin = [c for c in b.calls() if not b.is_cleanup(c.bb) and c.name in ("compaction::manifest::CompactionManifest::finalize_compaction_inputs",
+                                                                          "compaction::manifest::CompactionManifest::set_input_version")]
+    pushes = [c.bb for c in b.calls() if not b.is_cleanup(c.bb) and c.name in ("std::vec::Vec::push", "std::vec::Vec::append", "std::vec::Vec::extend",
+                                                                               "<std::vec::Vec<T, A> as std::iter::Extend<T>>::extend")]
+    nonempty = []
+    for c in b.calls():
+        if not b.is_cleanup(c.bb) and (c.name or "").endswith("::is_empty"):
+            for t in _bt(b, c.dest["l"]):
+                nonempty += [(t.bb, x) for x in t.err]
+    bad = []
+    for nw in news:
+        for f_ in fin:
+            if nw.target is not None and f_.bb in b.reachable(nw.target) and not b.must_pass(f_.bb, through_nodes=pushes, through_edges=nonempty, start=nw.target):
+                bad.append("manifest created at line %s reaches line %s without an input" % (nw.line, f_.line))
+    R.check(rule, fn + "|an-input-is-always-picked", bool(news) and bool(fin) and bool(pushes) and not bad, where(b),
+            "between CompactionManifest::new and the finalization an input file is pushed on every path (or the set is known to be non-empty)",
+            "; ".join(sorted(set(bad))) or "manifests %d, pushes %d" % (len(news), len(pushes)))
+    R.floor(rule, "CompactionManifest::new sites in pick_compaction", len(news), 2)
